@@ -31,7 +31,7 @@ ASSUMPTIONS = [
     'error propagation, not for values',
     'SUMIF/SUMIFS are skipped when the installed pandas cannot run them',
 ]
-FLOORS = {'cached_error_cases': 100, 'and_or_range_error_cases': 300, 'op_error_cases': 1000, 'func_error_cases': 1000,
+FLOORS = {'absolute_range_error_cases': 200, 'cached_error_cases': 100, 'and_or_range_error_cases': 300, 'op_error_cases': 1000, 'func_error_cases': 1000,
           'type_pair_cases': 500, 'aggregate_cases': 200,
           'stored_error_cases': 8, 'truth_table_cases': 50,
           'formula_spelling_cases': 1000}
@@ -132,6 +132,10 @@ class Batch:
 
     def add(self, text, meta):
         self.items.append((text, meta))
+
+    def maybe_flush(self):
+        # only between groups of cases: a flush clears the placed cells, and
+        # several formulas of one group may read the same placed cells
         if len(self.items) >= 300:
             self.flush()
 
@@ -226,6 +230,7 @@ def run(ctx):
         f = F.get(name)
         for code in ERROR_CODES:
             for oname, other in OTHERS.items():
+                B.maybe_flush()
                 work += 1
                 if work % n != sh:
                     continue
@@ -273,6 +278,7 @@ def run(ctx):
             for code2 in ERROR_CODES:
                 if code2 == code or sym in ('u-', '%'):
                     continue
+                B.maybe_flush()
                 work += 1
                 if work % n != sh:
                     continue
@@ -300,7 +306,15 @@ def run(ctx):
                         'tz-date-text': '2020-01-01T00:00:00Z',
                         'offset-date-text': '2020-01-01 10:00+02:00',
                         'huge-digits-text': '9' * 400,
-                        'time-text': '12:00'})
+                        'time-text': '12:00',
+                        # dates outside / at the edges of the serial range
+                        'date-before-1900': datetime.datetime(1850, 5, 1),
+                        'date-1899-12-30': datetime.datetime(1899, 12, 30),
+                        'date-year-1': datetime.datetime(1, 1, 1),
+                        'date-9999': datetime.datetime(9999, 12, 31, 23, 59,
+                                                       59),
+                        'date-with-time': datetime.datetime(2020, 2, 3, 13,
+                                                            14, 15)})
     from xlcalculator.xlfunctions import func_xltypes as T
 
     def typed(v):
@@ -310,6 +324,7 @@ def run(ctx):
             return v
     for (an, a), (bn, b) in itertools.product(type_values.items(), repeat=2):
         for name, sym in BIN.items():
+            B.maybe_flush()
             work += 1
             if work % n != sh:
                 continue
@@ -331,6 +346,7 @@ def run(ctx):
                    else None})
     for an, a in type_values.items():
         for name in ('OP_NEG', 'OP_PERCENT'):
+            B.maybe_flush()
             work += 1
             if work % n != sh:
                 continue
@@ -357,6 +373,7 @@ def run(ctx):
               ('POWER', '^', 0.5)]
     for a, b in itertools.product(edge, repeat=2):
         for name, sym in BIN.items():
+            B.maybe_flush()
             work += 1
             if work % n != sh:
                 continue
@@ -404,6 +421,7 @@ def run(ctx):
             if name in ('AND', 'OR') and pos > 0:
                 continue
             for code in ERROR_CODES:
+                B.maybe_flush()
                 work += 1
                 if work % n != sh:
                     continue
@@ -439,6 +457,7 @@ def run(ctx):
             continue
         f = F[name]
         for code in ERROR_CODES:
+            B.maybe_flush()
             work += 1
             if work % n != sh:
                 continue
@@ -498,6 +517,20 @@ def run(ctx):
                              'key': (name, lname, code, 'formula'),
                              'kf': kf_sumproduct if name == 'SUMPRODUCT'
                              else None})
+                if ':' in text:
+                    # the same ranges spelt absolute and mixed ($)
+                    import re as _re
+                    for style, rep in (('abs', r'$\1$\2:$\3$\4'),
+                                       ('mixed', r'\1$\2:$\3\4')):
+                        t2 = _re.sub(r'([A-Z]+)(\d+):([A-Z]+)(\d+)', rep,
+                                     text)
+                        ctx.event('aggregate_cases')
+                        ctx.event('absolute_range_error_cases')
+                        B.add(t2, {'kind': 'expect_error', 'code': code,
+                                   'key': (name, lname, code, 'formula',
+                                           style),
+                                   'kf': kf_sumproduct
+                                   if name == 'SUMPRODUCT' else None})
             # two errors: leftmost (row-major inside a range)
             if name not in ('SUMPRODUCT', 'NPV'):
                 code2 = ERROR_CODES[(ERROR_CODES.index(code) + 3) % 7]
@@ -566,6 +599,7 @@ def run(ctx):
         if name not in F:
             continue
         for code in ERROR_CODES:
+            B.maybe_flush()
             work += 1
             if work % n != sh:
                 continue
